@@ -182,6 +182,10 @@ def _matches(req, msg):
 
 def run_case(case) -> CaseResult:
     res = CaseResult()
+    if isinstance(case, dict) and case.get('t') == 'cmd':
+        from checks import c12_cmd
+        c12_cmd.run_cmd_case(case, res)
+        return res
     reqs, inc = _sanitise(case)
     if not reqs:
         return res
@@ -431,6 +435,8 @@ def run_case(case) -> CaseResult:
 def run_shard(ctx):
     n = 500 if ctx.tier == 'quick' else 20000
     ctx.explore(case_strategy(), n)
+    from checks import c12_cmd
+    c12_cmd.shard_cmd(ctx)
 
 
 MANIFEST_ENTRY = {
